@@ -168,6 +168,7 @@ IsCase == NextMethod = ""
 (* families of method subsets *)
 All64 == SUBSET Ops
 Tiny == {{}, Ops}
+Four == {{}, {"eq"}, {"lt", "eq"}, {"le", "ne"}}
 Five == {{}, {"lt"}, {"eq"}, {"lt", "eq"}, {"le", "ne"}, Ops}
 Small == {{}, {"lt"}, {"eq"}, {"lt", "eq"}, {"le", "ne"}, {"gt", "eq", "ne"}, Ops}
 Medium == Small \cup {{"ne"}, {"ge", "eq"}, {"lt", "gt"}, {"eq", "ne"}, {"lt", "le", "gt", "ge"}, {"le", "eq"}}
@@ -176,7 +177,7 @@ Medium == Small \cup {{"ne"}, {"ge", "eq"}, {"lt", "gt"}, {"eq", "ne"}, {"lt", "
 Fam(k) ==
   LET inv == Involved(l, r) IN
   CASE Profile = "quick" ->
-         (IF "S" \in inv THEN Five ELSE IF "O" \in inv THEN (IF k = "O" THEN Tiny ELSE Medium) ELSE All64)
+         (IF "S" \in inv THEN Four ELSE IF "O" \in inv THEN (IF k = "O" THEN Tiny ELSE Five) ELSE All64)
     [] Profile = "thorough" ->
          (IF "S" \in inv THEN (IF k \in {"C", "S"} THEN Medium ELSE Tiny)
           ELSE IF k = "C" THEN All64 ELSE IF k = "D" THEN Small ELSE Tiny)
